@@ -52,6 +52,7 @@ o P2 240102#N2 todo with prio w0
 - {t}#N5 created today w0
 - {t}#U5 untouched five
 x P1 240107#N7 finished task
+< P1 240109#N9 blocked with priority w0
 ~ 240108#N8 dropped task
 
 {H1R} Sec s0
@@ -63,7 +64,7 @@ x P1 240107#N7 finished task
 
 
 EDIT_WORD = {"edit_N1": "#N1", "edit_N2": "#N2", "edit_N3": "#N3", "edit_N4": "#N4", "edit_N5": "#N5",
-             "edit_N6": "#N6"}
+             "edit_N6": "#N6", "edit_N9": "#N9"}
 EVENTS = list(EDIT_WORD) + ["edit_bullet", "kind_N2", "prio_N2", "add_note", "edit_header",
                             "edit_section", "edit_Q1", "swap_N1_U1", "prio_N7", "kind_N8", "R", "D"]
 
